@@ -60,12 +60,9 @@ Definition kf_file_invalid (f : fs) : bool := kf_file_invalid_in f cands.
 Definition kf_verbose_file_only (f : fs) (fl : flags) : bool :=
   negb (f_verbose fl) && or_else (sec_bool (file_section f cands) "verbose") false.
 
-(* C19-2: init with settings that must be refused, pointed at a readable document *)
+(* init must be refused when its settings are invalid *)
 Definition init_invalid (f : fs) (il : iflags) : bool :=
   negb (lib_ok (init_lib il)) || negb (fs_exists f (init_project il)).
-Definition kf_init_writes_first (f : fs) (il : iflags) : bool :=
-  init_invalid f il &&
-  match fs_get f (init_target il) with Some (NDoc (Some _)) => true | _ => false end.
 
 (* ---------------------------------------------------------------- run-time oracles *)
 Fixpoint json_eqb (a b : json) {struct a} : bool :=
@@ -165,20 +162,23 @@ Definition generate_ok_b (f : fs) (fl : flags) (o : cli_obs) : bool :=
        | ORejected _ => false
        end.
 
-(* init: refused before anything is written when its settings are invalid; otherwise the
-   document keeps everything outside the section and reads back as the settings given.
+(* init: refused before anything is written when its settings are invalid or when the
+   target is not a document the settings can be written into; otherwise the document keeps
+   everything outside the section and reads back as the settings given.
    after = the target document after the run (None = not a readable document);
    bref = the target document before the run in its reference reading (every decimal
    literal denotes the double nearest to it) *)
 Definition init_ok_b (f : fs) (il : iflags) (bref : json) (o : cli_obs) (after : option json) : bool :=
   if init_invalid f il then match o with ORejected true => true | _ => false end
   else match fs_get f (init_target il) with
-       | Some (NDoc (Some _)) =>
-           match o, after with
-           | ORejected _, _ => false
-           | _, Some a => preserved_b 40 bref a && roundtrip_b (init_config il) (load_doc a)
-           | _, None => false
-           end
+       | Some (NDoc (Some d)) =>
+           if saveable d then
+             match o, after with
+             | ORejected _, _ => false
+             | _, Some a => preserved_b 40 bref a && roundtrip_b (init_config il) (load_doc a)
+             | _, None => false
+             end
+           else match o with ORejected true => true | _ => false end
        | _ => match o with ORejected true => true | _ => false end
        end.
 
@@ -190,7 +190,15 @@ Definition roundtrip_lres_b (f : fs) (c : config) (l : lres) : bool :=
   | Some _ => match l with LErr => true | _ => false end
   end.
 
-(* C19-7: serde_json (built without float_roundtrip) reads some decimal literal of the
-   document as a double other than the nearest one: dref is the reference reading of the
-   text, dserde the value the tool has in hand *)
-Definition kf_number_misread (dref dserde : json) : bool := negb (json_eqb dref dserde).
+(* library level, whole oracle. dref = reference reading of the text before; after =
+   the document found afterwards when the save reported success, None when it reported an
+   error and left the file byte for byte as it was; l = what from_tauri_config then returned.
+   A document the settings cannot be written into must be refused; any other must keep every
+   outside path and read back as the settings written *)
+Definition lib_ok_b (f : fs) (c : config) (dref : json) (after : option json) (l : lres) : bool :=
+  if saveable dref then
+    match after with
+    | Some a => preserved_b 40 dref a && roundtrip_lres_b f c l
+    | None => false
+    end
+  else match after with None => true | Some _ => false end.
